@@ -206,7 +206,7 @@ func runC07(c *Ctx) {
 			// the (r, N-s) twin is a valid signature over the same request: served, and that is fine
 			eval("sig:twin", sigTwin(req), nil, req)
 			// unregistered origins and near misses
-			for _, o := range []string{"unregistered.example", names[0] + "x", names[0][:len(names[0])-1], "", strings.ToUpper(names[0]), names[0] + "\x00x"} {
+			for _, o := range []string{"unregistered.example", names[0] + "x", names[0][:len(names[0])-1], "", strings.ToUpper(names[0]), names[0] + "\x00x", names[0] + ".", names[0] + " ", " " + names[0], names[0] + "/", "www." + names[0]} {
 				_, rq := mkReq(cl, o, e)
 				eval("origin:unregistered", rq, nil, nil)
 			}
